@@ -38,14 +38,15 @@ Proof. vm_compute. reflexivity. Qed.
 
 (* the timeout of a shorter name detaches a longer pending name *)
 Definition w_timeout_shorter : list ev :=
-  [EExpress [1] false None (Some 10); EExpress [1;2] false None (Some 100); EAdvance 20; EFire 0; ERun 0; EData [1;2] 7].
+  [EExpress [1] false None (Some 10); EExpress [1;2] false None (Some (100 + timeout_margin)); EAdvance (10 + timeout_margin);
+   EFire 0; ERun 0; EData [1;2] 7].
 Lemma timeout_detaches_refuted_no_delif : verdict_of no_delif w_timeout_shorter = Some (0%nat, VDataMissed 1).
 Proof. vm_compute. reflexivity. Qed.
 
 (* a node that was removed while its timer is still scheduled unlinks the re-created node of a re-expressed Interest *)
 Definition w_stale_node : list ev :=
-  [EExpress [1;2;3] false None (Some 20); EData [1;2] 7; EAdvance 5; EExpress [1;2;3] false None (Some 100);
-   EAdvance 25; EFire 0; ERun 0; EData [1;2;3] 8].
+  [EExpress [1;2;3] false None (Some 20); EData [1;2] 7; EAdvance 5; EExpress [1;2;3] false None (Some (100 + timeout_margin));
+   EAdvance (15 + timeout_margin); EFire 0; ERun 0; EData [1;2;3] 8].
 Lemma stale_node_refuted_pinned : verdict_of pinned w_stale_node = Some (0%nat, VDataMissed 1).
 Proof. vm_compute. reflexivity. Qed.
 
@@ -60,8 +61,8 @@ Proof. vm_compute. reflexivity. Qed.
 (* exactly-once: a nacked entry stays in the detached node; a timer that was not cancelled (its entry had been timed out
    by a sibling's timer) later gives it a second callback *)
 Definition w_double_callback : list ev :=
-  [EExpress [1] false None (Some 0); EExpress [1] false None (Some 5); EExpress [1] false None (Some 12);
-   EAdvance 10; EFire 0; ERun 0; EAdvance 1; ENack [1] None 150; EAdvance 4; EFire 1; ERun 1].
+  [EExpress [1] false None (Some 0); EExpress [1] false None (Some 0); EExpress [1] false None (Some (timeout_margin + 1));
+   EAdvance timeout_margin; EFire 0; ERun 0; ENack [1] None 150; EAdvance 1; EFire 1; ERun 1].
 Lemma exactly_once_refuted_pinned : verdict_of pinned w_double_callback = Some (0%nat, VNotPending 2).
 Proof. vm_compute. reflexivity. Qed.
 Lemma exactly_once_refuted_no_nack : verdict_of no_nack w_double_callback = Some (0%nat, VNotPending 2).
